@@ -1,5 +1,6 @@
-(* Proofs about Model/LockTrace.v: the lockset theorem (for all traces) and soundness of
-   the static table discipline. *)
+(* Proofs about Model/LockTrace.v: the lockset theorem (for all traces, read-write locks
+   included), soundness of the static table discipline, and soundness of the one-pass
+   trace checker. *)
 From Coq Require Import String List Arith Bool Lia.
 From Snow Require Import Model.LockTrace.
 Import ListNotations.
@@ -32,6 +33,26 @@ Proof.
   rewrite Htr. now rewrite <- app_assoc.
 Qed.
 
+Lemma mem_tid_In : forall t l, mem_tid t l = true <-> In t l.
+Proof.
+  induction l as [|a l IH]; cbn; [split; [discriminate|tauto]|].
+  rewrite orb_true_iff, Nat.eqb_eq, IH. tauto.
+Qed.
+
+Lemma remove_one_In : forall x t l, In x (remove_one t l) -> In x l.
+Proof.
+  induction l as [|a l IH]; cbn; auto.
+  destruct (Nat.eqb a t); cbn; [tauto|]. intros [->|H]; auto.
+Qed.
+
+(* removing an occurrence of t keeps every other thread *)
+Lemma remove_one_other : forall x t l, In x l -> x <> t -> In x (remove_one t l).
+Proof.
+  induction l as [|a l IH]; cbn; auto. intros [->|H] Hne.
+  - destruct (Nat.eqb x t) eqn:E; [apply Nat.eqb_eq in E; contradiction|]. now left.
+  - destruct (Nat.eqb a t); [exact H|]. right. auto.
+Qed.
+
 (* ---- running the lock state ----------------------------------------------------------- *)
 
 Lemma run_app : forall a b s,
@@ -47,66 +68,173 @@ Proof. intros. unfold upd. now rewrite Nat.eqb_refl. Qed.
 Lemma upd_other : forall s l v l', l' <> l -> upd s l v l' = s l'.
 Proof. intros s l v l' H. unfold upd. apply Nat.eqb_neq in H. now rewrite H. Qed.
 
-(* what one step can do to the owner of g *)
-Lemma step_owner : forall s e s' g,
+(* a write section excludes read sections *)
+Definition lst_ok (v : lst) : Prop := wr v <> None -> rds v = [].
+
+(* what one step can do to the state of g *)
+Lemma step_view : forall s e s' g,
   step s e = Some s' ->
   s' g = s g
-  \/ (exists t, e = Acq t g /\ s g = None /\ s' g = Some t)
-  \/ (exists t, e = Rel t g /\ s g = Some t /\ s' g = None).
+  \/ (exists t, e = Acq t g /\ wr (s g) = None /\ rds (s g) = [] /\ s' g = mkLst (Some t) [])
+  \/ (exists t, e = Rel t g /\ wr (s g) = Some t /\ s' g = mkLst None (rds (s g)))
+  \/ (exists t, e = RAcq t g /\ wr (s g) = None /\ s' g = mkLst None (t :: rds (s g)))
+  \/ (exists t, e = RRel t g /\ In t (rds (s g)) /\ s' g = mkLst (wr (s g)) (remove_one t (rds (s g)))).
 Proof.
-  intros s e s' g H. destruct e as [t l|t l|t x|t x|t x|t t']; cbn in H; try (inversion H; subst; now left).
-  - destruct (s l) eqn:Hl; [discriminate|]. inversion H; subst. clear H.
-    destruct (Nat.eq_dec g l) as [->|Hne].
+  intros s e s' g H.
+  destruct e as [t l|t l|t l|t l|t x|t x|t x|t t']; cbn in H; try (inversion H; subst; now left).
+  - destruct (wr (s l)) eqn:Hw; [discriminate|]. destruct (rds (s l)) eqn:Hr; [|discriminate].
+    inversion H; subst; clear H. destruct (Nat.eq_dec g l) as [->|Hne].
     + right; left. exists t. rewrite upd_same. auto.
     + left. now apply upd_other.
-  - destruct (s l) as [t'|] eqn:Hl; [|discriminate].
+  - destruct (wr (s l)) as [t'|] eqn:Hw; [|discriminate].
     destruct (Nat.eqb t' t) eqn:Ht; [|discriminate]. apply Nat.eqb_eq in Ht. subst t'.
-    inversion H; subst. clear H.
-    destruct (Nat.eq_dec g l) as [->|Hne].
-    + right; right. exists t. rewrite upd_same. auto.
+    inversion H; subst; clear H. destruct (Nat.eq_dec g l) as [->|Hne].
+    + right; right; left. exists t. rewrite upd_same. auto.
+    + left. now apply upd_other.
+  - destruct (wr (s l)) eqn:Hw; [discriminate|].
+    inversion H; subst; clear H. destruct (Nat.eq_dec g l) as [->|Hne].
+    + right; right; right; left. exists t. rewrite upd_same. auto.
+    + left. now apply upd_other.
+  - destruct (mem_tid t (rds (s l))) eqn:Hm; [|discriminate]. apply mem_tid_In in Hm.
+    inversion H; subst; clear H. destruct (Nat.eq_dec g l) as [->|Hne].
+    + right; right; right; right. exists t. rewrite upd_same. auto.
     + left. now apply upd_other.
 Qed.
 
-(* if g ends up owned by t2 and was not owned by t2 at the start, t2 acquired it on the way *)
+Lemma step_ok : forall s e s' g, step s e = Some s' -> lst_ok (s g) -> lst_ok (s' g).
+Proof.
+  intros s e s' g H Hok.
+  destruct (step_view s e s' g H) as [E|[(t & _ & _ & _ & E)|[(t & _ & _ & E)|[(t & _ & _ & E)|(t & _ & Hin & E)]]]];
+    rewrite E; unfold lst_ok in *; cbn; auto; try congruence.
+  intros Hw. rewrite (Hok Hw) in Hin. destruct Hin.
+Qed.
+
+Lemma run_ok : forall tr s s' g, run tr s = Some s' -> lst_ok (s g) -> lst_ok (s' g).
+Proof.
+  induction tr as [|e tr IH]; intros s s' g H Hok; cbn in H.
+  - inversion H; subst. exact Hok.
+  - destruct (step s e) as [s1|] eqn:Hst; [|discriminate].
+    eapply IH; eauto. eapply step_ok; eauto.
+Qed.
+
+Lemma st0_ok : forall g, lst_ok (st0 g).
+Proof. intros g. unfold lst_ok, st0, free. cbn. congruence. Qed.
+
+(* if g ends up write-held by t2 and was not at the start, t2 acquired it on the way *)
 Lemma acquire_exists : forall seg s s' g t2,
-  run seg s = Some s' -> s g <> Some t2 -> s' g = Some t2 ->
+  run seg s = Some s' -> wr (s g) <> Some t2 -> wr (s' g) = Some t2 ->
   exists b c, seg = b ++ Acq t2 g :: c.
 Proof.
   induction seg as [|e seg IH]; intros s s' g t2 Hrun Hne Hend; cbn in Hrun.
   - inversion Hrun; subst. contradiction.
   - destruct (step s e) as [s1|] eqn:Hst; [|discriminate].
-    destruct (step_owner s e s1 g Hst) as [Heq|[(t & He & Hs & Hs1)|(t & He & Hs & Hs1)]].
-    + assert (Hne1 : s1 g <> Some t2) by (rewrite Heq; exact Hne).
-      destruct (IH s1 s' g t2 Hrun Hne1 Hend) as (b & c & Hseg).
-      exists (e :: b), c. now rewrite Hseg.
-    + destruct (Nat.eq_dec t t2) as [->|Htt].
-      * exists [], seg. now rewrite He.
-      * assert (Hne1 : s1 g <> Some t2) by (rewrite Hs1; intros Hc; inversion Hc; contradiction).
-        destruct (IH s1 s' g t2 Hrun Hne1 Hend) as (b & c & Hseg).
-        exists (e :: b), c. now rewrite Hseg.
-    + assert (Hne1 : s1 g <> Some t2) by (rewrite Hs1; discriminate).
-      destruct (IH s1 s' g t2 Hrun Hne1 Hend) as (b & c & Hseg).
+    assert (Hcase : e = Acq t2 g \/ wr (s1 g) <> Some t2).
+    { destruct (step_view s e s1 g Hst) as [E|[(t & He & _ & _ & E)|[(t & _ & _ & E)|[(t & _ & _ & E)|(t & _ & _ & E)]]]].
+      - right. now rewrite E.
+      - destruct (Nat.eq_dec t t2) as [->|Htt]; [now left|]. right. rewrite E. cbn. congruence.
+      - right. rewrite E. cbn. discriminate.
+      - right. rewrite E. cbn. discriminate.
+      - right. rewrite E. cbn. exact Hne. }
+    destruct Hcase as [->|Hne1].
+    + now exists [], seg.
+    + destruct (IH s1 s' g t2 Hrun Hne1 Hend) as (b & c & Hseg).
       exists (e :: b), c. now rewrite Hseg.
 Qed.
 
-(* the classic lockset step: between a state where t1 owns g and a later one where a
-   different thread t2 owns g, t1 released g and, after that, t2 acquired it *)
-Lemma handoff : forall seg s s' g t1 t2,
-  run seg s = Some s' -> s g = Some t1 -> s' g = Some t2 -> t1 <> t2 ->
+(* if t2 ends up inside a read section of g and was not at the start, it entered on the way *)
+Lemma racquire_exists : forall seg s s' g t2,
+  run seg s = Some s' -> ~ In t2 (rds (s g)) -> In t2 (rds (s' g)) ->
+  exists b c, seg = b ++ RAcq t2 g :: c.
+Proof.
+  induction seg as [|e seg IH]; intros s s' g t2 Hrun Hne Hend; cbn in Hrun.
+  - inversion Hrun; subst. contradiction.
+  - destruct (step s e) as [s1|] eqn:Hst; [|discriminate].
+    assert (Hcase : e = RAcq t2 g \/ ~ In t2 (rds (s1 g))).
+    { destruct (step_view s e s1 g Hst) as [E|[(t & _ & _ & _ & E)|[(t & _ & _ & E)|[(t & He & _ & E)|(t & _ & _ & E)]]]].
+      - right. now rewrite E.
+      - right. rewrite E. cbn. tauto.
+      - right. rewrite E. cbn. exact Hne.
+      - destruct (Nat.eq_dec t t2) as [->|Htt]; [now left|]. right. rewrite E. cbn. intros [H|H]; auto.
+      - right. rewrite E. cbn. intros H. apply Hne. eapply remove_one_In; eauto. }
+    destruct Hcase as [->|Hne1].
+    + now exists [], seg.
+    + destruct (IH s1 s' g t2 Hrun Hne1 Hend) as (b & c & Hseg).
+      exists (e :: b), c. now rewrite Hseg.
+Qed.
+
+(* write section of t1, later write section of t2 <> t1: t1 released, then t2 acquired *)
+Lemma handoff_ww : forall seg s s' g t1 t2,
+  run seg s = Some s' -> wr (s g) = Some t1 -> wr (s' g) = Some t2 -> t1 <> t2 ->
   exists a b c, seg = a ++ Rel t1 g :: b ++ Acq t2 g :: c.
 Proof.
   induction seg as [|e seg IH]; intros s s' g t1 t2 Hrun H1 H2 Hne; cbn in Hrun.
   - inversion Hrun; subst. rewrite H1 in H2. inversion H2. contradiction.
   - destruct (step s e) as [s1|] eqn:Hst; [|discriminate].
-    destruct (step_owner s e s1 g Hst) as [Heq|[(t & He & Hs & Hs1)|(t & He & Hs & Hs1)]].
-    + rewrite H1 in Heq.
-      destruct (IH s1 s' g t1 t2 Hrun Heq H2 Hne) as (a & b & c & Hseg).
+    destruct (step_view s e s1 g Hst) as [E|[(t & _ & Hs & _ & _)|[(t & He & Hs & E)|[(t & _ & Hs & _)|(t & _ & _ & E)]]]].
+    + assert (H1' : wr (s1 g) = Some t1) by (now rewrite E).
+      destruct (IH s1 s' g t1 t2 Hrun H1' H2 Hne) as (a & b & c & Hseg).
       exists (e :: a), b, c. now rewrite Hseg.
-    + rewrite H1 in Hs. discriminate.
+    + congruence.
     + rewrite H1 in Hs. inversion Hs; subst t.
-      assert (Hn : s1 g <> Some t2) by (rewrite Hs1; discriminate).
+      assert (Hn : wr (s1 g) <> Some t2) by (rewrite E; cbn; discriminate).
       destruct (acquire_exists seg s1 s' g t2 Hrun Hn H2) as (b & c & Hseg).
       exists [], b, c. now rewrite He, Hseg.
+    + congruence.
+    + assert (H1' : wr (s1 g) = Some t1) by (rewrite E; exact H1).
+      destruct (IH s1 s' g t1 t2 Hrun H1' H2 Hne) as (a & b & c & Hseg).
+      exists (e :: a), b, c. now rewrite Hseg.
+Qed.
+
+(* write section of t1, later read section of t2: t1 released, then t2 entered *)
+Lemma handoff_wr : forall seg s s' g t1 t2,
+  run seg s = Some s' -> lst_ok (s g) -> wr (s g) = Some t1 -> In t2 (rds (s' g)) ->
+  exists a b c, seg = a ++ Rel t1 g :: b ++ RAcq t2 g :: c.
+Proof.
+  induction seg as [|e seg IH]; intros s s' g t1 t2 Hrun Hok H1 H2; cbn in Hrun.
+  - inversion Hrun; subst. rewrite Hok in H2 by congruence. destruct H2.
+  - destruct (step s e) as [s1|] eqn:Hst; [|discriminate].
+    assert (Hok1 : lst_ok (s1 g)) by (eapply step_ok; eauto).
+    destruct (step_view s e s1 g Hst) as [E|[(t & _ & Hs & _ & _)|[(t & He & Hs & E)|[(t & _ & Hs & _)|(t & _ & Hin & _)]]]].
+    + assert (H1' : wr (s1 g) = Some t1) by (now rewrite E).
+      destruct (IH s1 s' g t1 t2 Hrun Hok1 H1' H2) as (a & b & c & Hseg).
+      exists (e :: a), b, c. now rewrite Hseg.
+    + congruence.
+    + rewrite H1 in Hs. inversion Hs; subst t.
+      assert (Hn : ~ In t2 (rds (s1 g))).
+      { rewrite E. cbn. rewrite Hok by congruence. tauto. }
+      destruct (racquire_exists seg s1 s' g t2 Hrun Hn H2) as (b & c & Hseg).
+      exists [], b, c. now rewrite He, Hseg.
+    + congruence.
+    + rewrite Hok in Hin by congruence. destruct Hin.
+Qed.
+
+(* read section of t1, later write section of t2: t1 left, then t2 acquired *)
+Lemma handoff_rw : forall seg s s' g t1 t2,
+  run seg s = Some s' -> lst_ok (s g) -> In t1 (rds (s g)) -> wr (s' g) = Some t2 ->
+  exists a b c, seg = a ++ RRel t1 g :: b ++ Acq t2 g :: c.
+Proof.
+  induction seg as [|e seg IH]; intros s s' g t1 t2 Hrun Hok H1 H2; cbn in Hrun.
+  - inversion Hrun; subst. rewrite Hok in H1 by congruence. destruct H1.
+  - destruct (step s e) as [s1|] eqn:Hst; [|discriminate].
+    assert (Hok1 : lst_ok (s1 g)) by (eapply step_ok; eauto).
+    assert (Hw : wr (s g) = None).
+    { destruct (wr (s g)) eqn:Hw; auto. rewrite Hok in H1 by congruence. destruct H1. }
+    destruct (step_view s e s1 g Hst) as [E|[(t & _ & _ & Hr & _)|[(t & _ & Hs & _)|[(t & _ & _ & E)|(t & He & Hin & E)]]]].
+    + assert (H1' : In t1 (rds (s1 g))) by (now rewrite E).
+      destruct (IH s1 s' g t1 t2 Hrun Hok1 H1' H2) as (a & b & c & Hseg).
+      exists (e :: a), b, c. now rewrite Hseg.
+    + rewrite Hr in H1. destruct H1.
+    + congruence.
+    + assert (H1' : In t1 (rds (s1 g))) by (rewrite E; cbn; auto).
+      destruct (IH s1 s' g t1 t2 Hrun Hok1 H1' H2) as (a & b & c & Hseg).
+      exists (e :: a), b, c. now rewrite Hseg.
+    + destruct (Nat.eq_dec t1 t) as [<-|Hne].
+      * assert (Hn : wr (s1 g) <> Some t2) by (rewrite E; cbn; rewrite Hw; discriminate).
+        destruct (acquire_exists seg s1 s' g t2 Hrun Hn H2) as (b & c & Hseg).
+        exists [], b, c. now rewrite He, Hseg.
+      * assert (H1' : In t1 (rds (s1 g))) by (rewrite E; cbn; now apply remove_one_other).
+        destruct (IH s1 s' g t1 t2 Hrun Hok1 H1' H2) as (a & b & c & Hseg).
+        exists (e :: a), b, c. now rewrite Hseg.
 Qed.
 
 (* ---- happens-before helpers ----------------------------------------------------------- *)
@@ -114,44 +242,37 @@ Qed.
 Lemma hb_lt : forall tr i j, hb tr i j -> i < j.
 Proof. induction 1; lia. Qed.
 
-(* an access is not a lock operation *)
-Lemma access_not_rel : forall e x t g, accesses e x -> e <> Rel t g.
-Proof. intros e x t g H He. subst e. unfold accesses in H. cbn in H. discriminate. Qed.
-
 Lemma access_not_fork : forall e x, accesses e x -> is_fork e = false.
 Proof. intros e x H. destruct e; cbn in *; auto; unfold accesses in H; cbn in H; discriminate. Qed.
 
-(* two critical sections of the same lock by different threads are ordered *)
-Lemma critical_sections_ordered : forall tr i j e1 e2 x g,
-  i < j -> nth_error tr i = Some e1 -> nth_error tr j = Some e2 ->
-  accesses e1 x -> thr e1 <> thr e2 ->
-  holds tr i (thr e1) g -> holds tr j (thr e2) g ->
+(* the common skeleton: an access e1 at i, an event e2 at j, and between them an event X of
+   e1's thread followed by an event Y of e2's thread such that X synchronises with Y *)
+Lemma ordered_via : forall tr i j e1 e2 p s q a b c X Y,
+  tr = p ++ e1 :: s ++ e2 :: q -> length p = i -> length (p ++ e1 :: s) = j ->
+  e1 :: s = a ++ X :: b ++ Y :: c -> e1 <> X -> thr X = thr e1 -> thr Y = thr e2 ->
+  (forall k m, k < m -> nth_error tr k = Some X -> nth_error tr m = Some Y -> hb tr k m) ->
   hb tr i j.
 Proof.
-  intros tr i j e1 e2 x g Hij Hi Hj Hacc Hthr (sA & HrA & HA) (sB & HrB & HB).
-  destruct (split_two tr i j e1 e2 Hij Hi Hj) as (p & s & q & Htr & Hp & Hps).
-  assert (Fi : firstn i tr = p).
-  { rewrite Htr, <- Hp. apply firstn_of_split. }
-  assert (Fj : firstn j tr = p ++ e1 :: s).
-  { rewrite Htr, <- Hps.
-    replace (p ++ e1 :: s ++ e2 :: q) with ((p ++ e1 :: s) ++ e2 :: q) by (now rewrite <- app_assoc).
-    apply firstn_of_split. }
-  rewrite Fi in HrA. rewrite Fj, run_app, HrA in HrB.
-  destruct (handoff (e1 :: s) sA sB g (thr e1) (thr e2) HrB HA HB Hthr) as (a & b & c & Hseg).
-  (* a is not empty: e1 is an access, not a release *)
+  intros tr i j e1 e2 p s q a b c X Y Htr Hp Hps Hseg HneX HtX HtY Hsync.
   destruct a as [|a0 a].
-  { cbn in Hseg. exfalso. apply (access_not_rel e1 x (thr e1) g Hacc). congruence. }
+  { cbn in Hseg. exfalso. apply HneX. congruence. }
   cbn in Hseg. inversion Hseg as [[Ha0 Hs]]. subst a0.
   set (k := length (p ++ e1 :: a)).
-  set (m := length ((p ++ e1 :: a) ++ Rel (thr e1) g :: b)).
-  assert (Htr2 : tr = (p ++ e1 :: a) ++ Rel (thr e1) g :: (b ++ Acq (thr e2) g :: c ++ e2 :: q)).
+  set (m := length ((p ++ e1 :: a) ++ X :: b)).
+  assert (Htr2 : tr = (p ++ e1 :: a) ++ X :: (b ++ Y :: c ++ e2 :: q)).
   { rewrite Htr, Hs. repeat (rewrite <- app_assoc; cbn). reflexivity. }
-  assert (Htr3 : tr = ((p ++ e1 :: a) ++ Rel (thr e1) g :: b) ++ Acq (thr e2) g :: (c ++ e2 :: q)).
+  assert (Htr3 : tr = ((p ++ e1 :: a) ++ X :: b) ++ Y :: (c ++ e2 :: q)).
   { rewrite Htr2. repeat (rewrite <- app_assoc; cbn). reflexivity. }
-  assert (Hk : nth_error tr k = Some (Rel (thr e1) g)).
+  assert (Hk : nth_error tr k = Some X).
   { rewrite Htr2 at 1. apply nth_error_mid. }
-  assert (Hm : nth_error tr m = Some (Acq (thr e2) g)).
+  assert (Hm : nth_error tr m = Some Y).
   { rewrite Htr3 at 1. apply nth_error_mid. }
+  assert (Hi : nth_error tr i = Some e1).
+  { rewrite Htr, <- Hp. apply nth_error_mid. }
+  assert (Hj : nth_error tr j = Some e2).
+  { rewrite <- Hps. rewrite Htr.
+    replace (p ++ e1 :: s ++ e2 :: q) with ((p ++ e1 :: s) ++ e2 :: q) by (now rewrite <- app_assoc).
+    apply nth_error_mid. }
   assert (Hik : i < k).
   { unfold k. rewrite app_length. cbn. lia. }
   assert (Hkm : k < m).
@@ -161,8 +282,69 @@ Proof.
   apply hb_trans with k.
   - eapply hb_po; eauto.
   - apply hb_trans with m.
-    + eapply hb_sync; eauto.
+    + apply Hsync; auto.
     + eapply hb_po; eauto.
+Qed.
+
+(* the states just before positions i < j *)
+Lemma states_at : forall tr i j e1 e2 sA sB,
+  i < j -> nth_error tr i = Some e1 -> nth_error tr j = Some e2 ->
+  run (firstn i tr) st0 = Some sA -> run (firstn j tr) st0 = Some sB ->
+  exists p s q, tr = p ++ e1 :: s ++ e2 :: q /\ length p = i /\ length (p ++ e1 :: s) = j /\
+                run (e1 :: s) sA = Some sB /\ (forall g, lst_ok (sA g)).
+Proof.
+  intros tr i j e1 e2 sA sB Hij Hi Hj HrA HrB.
+  destruct (split_two tr i j e1 e2 Hij Hi Hj) as (p & s & q & Htr & Hp & Hps).
+  exists p, s, q. repeat split; auto.
+  - assert (Fi : firstn i tr = p).
+    { rewrite Htr, <- Hp. apply firstn_of_split. }
+    assert (Fj : firstn j tr = p ++ e1 :: s).
+    { rewrite Htr, <- Hps.
+      replace (p ++ e1 :: s ++ e2 :: q) with ((p ++ e1 :: s) ++ e2 :: q) by (now rewrite <- app_assoc).
+      apply firstn_of_split. }
+    rewrite Fi in HrA. rewrite Fj, run_app, HrA in HrB. exact HrB.
+  - intros g. eapply run_ok; [exact HrA | apply st0_ok].
+Qed.
+
+(* two sections of the same lock by different threads, at least one of them a write
+   section, are ordered *)
+Lemma sections_ordered_ww : forall tr i j e1 e2 x g,
+  i < j -> nth_error tr i = Some e1 -> nth_error tr j = Some e2 ->
+  accesses e1 x -> thr e1 <> thr e2 ->
+  holds tr i (thr e1) g -> holds tr j (thr e2) g -> hb tr i j.
+Proof.
+  intros tr i j e1 e2 x g Hij Hi Hj Hacc Hthr (sA & HrA & HA) (sB & HrB & HB).
+  destruct (states_at tr i j e1 e2 sA sB Hij Hi Hj HrA HrB) as (p & s & q & Htr & Hp & Hps & Hrun & _).
+  destruct (handoff_ww (e1 :: s) sA sB g (thr e1) (thr e2) Hrun HA HB Hthr) as (a & b & c & Hseg).
+  eapply (ordered_via tr i j e1 e2 p s q a b c (Rel (thr e1) g) (Acq (thr e2) g)); eauto.
+  - intros E. rewrite E in Hacc. unfold accesses in Hacc. cbn in Hacc. discriminate.
+  - intros k m Hkm Hk Hm. eapply hb_sync; eauto.
+Qed.
+
+Lemma sections_ordered_wr : forall tr i j e1 e2 x g,
+  i < j -> nth_error tr i = Some e1 -> nth_error tr j = Some e2 ->
+  accesses e1 x ->
+  holds tr i (thr e1) g -> holds_r tr j (thr e2) g -> hb tr i j.
+Proof.
+  intros tr i j e1 e2 x g Hij Hi Hj Hacc (sA & HrA & HA) (sB & HrB & HB).
+  destruct (states_at tr i j e1 e2 sA sB Hij Hi Hj HrA HrB) as (p & s & q & Htr & Hp & Hps & Hrun & Hok).
+  destruct (handoff_wr (e1 :: s) sA sB g (thr e1) (thr e2) Hrun (Hok g) HA HB) as (a & b & c & Hseg).
+  eapply (ordered_via tr i j e1 e2 p s q a b c (Rel (thr e1) g) (RAcq (thr e2) g)); eauto.
+  - intros E. rewrite E in Hacc. unfold accesses in Hacc. cbn in Hacc. discriminate.
+  - intros k m Hkm Hk Hm. eapply hb_sync_wr; eauto.
+Qed.
+
+Lemma sections_ordered_rw : forall tr i j e1 e2 x g,
+  i < j -> nth_error tr i = Some e1 -> nth_error tr j = Some e2 ->
+  accesses e1 x ->
+  holds_r tr i (thr e1) g -> holds tr j (thr e2) g -> hb tr i j.
+Proof.
+  intros tr i j e1 e2 x g Hij Hi Hj Hacc (sA & HrA & HA) (sB & HrB & HB).
+  destruct (states_at tr i j e1 e2 sA sB Hij Hi Hj HrA HrB) as (p & s & q & Htr & Hp & Hps & Hrun & Hok).
+  destruct (handoff_rw (e1 :: s) sA sB g (thr e1) (thr e2) Hrun (Hok g) HA HB) as (a & b & c & Hseg).
+  eapply (ordered_via tr i j e1 e2 p s q a b c (RRel (thr e1) g) (Acq (thr e2) g)); eauto.
+  - intros E. rewrite E in Hacc. unfold accesses in Hacc. cbn in Hacc. discriminate.
+  - intros k m Hkm Hk Hm. eapply hb_sync_rw; eauto.
 Qed.
 
 (* before the first Fork only the main thread runs *)
@@ -216,9 +398,13 @@ Proof.
   - destruct (HA i e1 Hi Ha1) as [|At1]; auto.
     destruct (HA j e2 Hj Ha2) as [|At2]; auto.
     destruct Hat as [F|F]; congruence.
-  - destruct (HB i e1 Hi Ha1) as [|H1]; auto.
-    destruct (HB j e2 Hj Ha2) as [|H2]; auto.
-    eapply critical_sections_ordered; eauto.
+  - destruct (HB i e1 Hi Ha1) as [|[W1|[R1 H1]]]; auto;
+    destruct (HB j e2 Hj Ha2) as [|[W2|[R2 H2]]]; auto.
+    + eapply sections_ordered_ww; eauto.
+    + eapply sections_ordered_wr; eauto.
+    + eapply sections_ordered_rw; eauto.
+    + (* two plain reads inside read sections: not a conflict *)
+      exfalso. destruct e1; destruct e2; cbn in *; destruct Hw; discriminate.
   - destruct (HC i e1 Hi Ha1) as [|R1]; auto.
     destruct (HC j e2 Hj Ha2) as [|R2]; auto.
     exfalso. destruct e1; destruct e2; cbn in *; destruct Hw; discriminate.
@@ -256,6 +442,10 @@ Proof.
   rewrite forallb_forall in Hall. apply mem_str_In. now apply Hall.
 Qed.
 
+(* a name that is not a read-mode name is its own base *)
+Lemma not_rname_strip : forall g, is_rname g = false -> strip_R g = g.
+Proof. intros g H. unfold is_rname in H. apply negb_false_iff in H. now apply String.eqb_eq. Qed.
+
 Section Soundness.
   Variable field_of : loc -> string.
   Variable inst : loc -> string -> lock.
@@ -288,15 +478,26 @@ Section Soundness.
           assert (Hl : In r (live_rows (field_of x) tbl)) by (apply live_rows_In; auto).
           specialize (Hrd r Hl). destruct (kind r); try discriminate. exact Hk.
       + right; left.
-        destruct (common_locks (live_rows (field_of x) tbl)) as [|g0 gs] eqn:Hc; [discriminate|].
-        exists (inst x g0). intros i e Hi Ha.
+        apply existsb_exists in Hlk. destruct Hlk as (g0 & Hg0 & Hgd).
+        unfold guards in Hgd. apply andb_true_iff in Hgd. destruct Hgd as [Hbase Hrows].
+        apply negb_true_iff in Hbase. rewrite forallb_forall in Hrows.
+        exists (inst x (strip_R g0)). intros i e Hi Ha.
         destruct (Hres i e x Hi Ha) as (r & Hr & Hf & Hk & Hh).
         destruct (kind_is_init (kind r)) eqn:Hki.
         { left. destruct (kind r); try discriminate. exact Hk. }
-        right. apply Hh.
-        apply common_locks_held with (rows := live_rows (field_of x) tbl).
-        * rewrite Hc. now left.
-        * apply live_rows_In; auto.
+        right.
+        assert (Hl : In r (live_rows (field_of x) tbl)) by (apply live_rows_In; auto).
+        assert (Hg0r : In g0 (held r)) by (eapply common_locks_held; eauto).
+        specialize (Hrows r Hl). apply orb_true_iff in Hrows. destruct Hrows as [Hrd|Hw].
+        * (* a plain-read row: the common lock, in the mode its name says *)
+          assert (Hro : is_read_only e = true) by (destruct (kind r); try discriminate; exact Hk).
+          specialize (Hh g0 Hg0r). unfold name_held in Hh.
+          destruct (is_rname g0) eqn:Hrn.
+          -- destruct Hh as [Hw|Hrm]; [now left | right; split; auto].
+          -- left. rewrite (not_rname_strip g0 Hrn). exact Hh.
+        * (* any other row lists the base name: write mode *)
+          apply mem_str_In in Hw. specialize (Hh (strip_R g0) Hw). unfold name_held in Hh.
+          rewrite Hbase in Hh. now left.
     - (* no row for this field: a trace that respects the table never touches x *)
       left. intros i e Hi Ha. exfalso.
       destruct (Hres i e x Hi Ha) as (r & Hr & Hf & _).
@@ -311,6 +512,117 @@ Section Soundness.
   Proof.
     intros tbl Hok tr Hwl Hwt Hres x.
     apply lockset_drf; auto. eapply discipline_sound; eauto.
+  Qed.
+
+  (* ---- the one-pass checker is sound --------------------------------------------------- *)
+
+  Lemma opt_tid_is_spec : forall o t, opt_tid_is o t = true <-> o = Some t.
+  Proof.
+    intros [t'|] t; cbn; [|split; discriminate]. rewrite Nat.eqb_eq. split; congruence.
+  Qed.
+
+  Lemma firstn_prefix : forall (p q : trace), firstn (length p) (p ++ q) = p.
+  Proof. intros p q. rewrite firstn_app, Nat.sub_diag, firstn_all. cbn. now rewrite app_nil_r. Qed.
+
+  Lemma name_held_of_b : forall (p q : trace) s t x g,
+    run p st0 = Some s -> name_heldb s t (inst x) g = true ->
+    name_held (p ++ q) (length p) t (inst x) g.
+  Proof.
+    intros p q s t x g Hrun Hb. unfold name_heldb in Hb. unfold name_held.
+    destruct (is_rname g).
+    - apply orb_true_iff in Hb. destruct Hb as [Hb|Hb].
+      + left. exists s. rewrite firstn_prefix. split; auto. now apply opt_tid_is_spec.
+      + right. exists s. rewrite firstn_prefix. split; auto. now apply mem_tid_In.
+    - exists s. rewrite firstn_prefix. split; auto. now apply opt_tid_is_spec.
+  Qed.
+
+  Definition no_fork (p : trace) : Prop := forall e, In e p -> is_fork e = false.
+
+  Lemma init_at_of_no_fork : forall (p : trace) e q,
+    no_fork (p ++ [e]) -> init_at (p ++ e :: q) (length p).
+  Proof.
+    intros p e q Hnf k e' Hk Hn.
+    apply Hnf. replace (p ++ e :: q) with ((p ++ [e]) ++ q) in Hn by (now rewrite <- app_assoc).
+    rewrite nth_error_app1 in Hn by (rewrite app_length; cbn; lia).
+    eapply nth_error_In; eauto.
+  Qed.
+
+  (* generalised over the prefix p already consumed *)
+  Lemma check_sound_gen : forall tbl q p s init forked,
+    run p st0 = Some s ->
+    (init = true -> no_fork p) ->
+    (forall t, In t forked -> exists k t0, k < length p /\ nth_error p k = Some (Fork t0 t)) ->
+    check field_of inst tbl q s init forked = true ->
+    (exists s', run (p ++ q) st0 = Some s') /\
+    (forall i e x, length p <= i -> nth_error (p ++ q) i = Some e -> accesses e x ->
+       exists r, In r tbl /\ field r = field_of x /\ kind_matches (p ++ q) i e (kind r) /\
+                 forall g, In g (held r) -> name_held (p ++ q) i (thr e) (inst x) g) /\
+    (forall j e, length p <= j -> nth_error (p ++ q) j = Some e -> thr e <> main_thread ->
+       exists k t0, k < j /\ nth_error (p ++ q) k = Some (Fork t0 (thr e))).
+  Proof.
+    intros tbl q. induction q as [|e q IH]; intros p s init forked Hrun Hinit Hforked Hc.
+    - rewrite app_nil_r. split; [eauto|]. split.
+      + intros i e x Hle Hn. apply nth_error_None in Hle. congruence.
+      + intros j e Hle Hn. apply nth_error_None in Hle. congruence.
+    - cbn [check] in Hc. apply andb_true_iff in Hc. destruct Hc as [Hc Hstep].
+      apply andb_true_iff in Hc. destruct Hc as [Hthr Hrow].
+      destruct (step s e) as [s1|] eqn:Hst; [|discriminate].
+      set (init' := init && negb (is_fork e)) in *.
+      set (forked' := match e with Fork _ t' => t' :: forked | _ => forked end) in *.
+      assert (Hrun1 : run (p ++ [e]) st0 = Some s1).
+      { rewrite run_app, Hrun. cbn. now rewrite Hst. }
+      assert (Hinit1 : init' = true -> no_fork (p ++ [e])).
+      { unfold init'. intros H. apply andb_true_iff in H. destruct H as [H1 H2]. apply negb_true_iff in H2.
+        intros e' Hin. apply in_app_or in Hin. destruct Hin as [Hin|[<-|[]]]; auto. now apply Hinit. }
+      assert (Hforked1 : forall t, In t forked' -> exists k t0, k < length (p ++ [e]) /\ nth_error (p ++ [e]) k = Some (Fork t0 t)).
+      { intros t Hin. rewrite app_length. cbn [length].
+        assert (Hold : In t forked -> exists k t0, k < length p + 1 /\ nth_error (p ++ [e]) k = Some (Fork t0 t)).
+        { intros Ho. destruct (Hforked t Ho) as (k & t0 & Hk & Hn). exists k, t0. split; [lia|].
+          rewrite nth_error_app1 by lia. exact Hn. }
+        unfold forked' in Hin. destruct e as [a l|a l|a l|a l|a y|a y|a y|a b]; auto.
+        destruct Hin as [<-|Hin]; auto.
+        exists (length p), a. split; [lia|]. apply nth_error_mid. }
+      replace (p ++ e :: q) with ((p ++ [e]) ++ q) by (now rewrite <- app_assoc).
+      destruct (IH (p ++ [e]) s1 init' forked' Hrun1 Hinit1 Hforked1 Hstep) as (Hwf & Hres & Hthrs).
+      split; [exact Hwf|]. split.
+      + intros i e' x Hle Hn Hacc.
+        destruct (Nat.eq_dec i (length p)) as [->|Hne].
+        * (* the head event *)
+          assert (He : e' = e).
+          { rewrite <- app_assoc in Hn. cbn in Hn. rewrite nth_error_mid in Hn. congruence. }
+          subst e'. unfold accesses in Hacc. rewrite Hacc in Hrow.
+          apply existsb_exists in Hrow. destruct Hrow as (r & Hr & Hok).
+          unfold row_okb in Hok. apply andb_true_iff in Hok. destruct Hok as [Hok Hheld].
+          apply andb_true_iff in Hok. destruct Hok as [Hf Hk]. apply String.eqb_eq in Hf.
+          exists r. split; auto. split; auto. split.
+          -- rewrite <- app_assoc. cbn [app]. destruct (kind r); cbn in Hk |- *; auto.
+             apply init_at_of_no_fork. apply Hinit1. exact Hk.
+          -- intros g Hg. rewrite forallb_forall in Hheld. specialize (Hheld g Hg).
+             rewrite <- app_assoc. cbn [app]. eapply name_held_of_b; eauto.
+        * apply Hres; auto. rewrite app_length. cbn. lia.
+      + intros j e' Hle Hn Hnm.
+        destruct (Nat.eq_dec j (length p)) as [->|Hne].
+        * assert (He : e' = e).
+          { rewrite <- app_assoc in Hn. cbn in Hn. rewrite nth_error_mid in Hn. congruence. }
+          subst e'. apply orb_true_iff in Hthr. destruct Hthr as [Hm|Hm].
+          -- apply Nat.eqb_eq in Hm. contradiction.
+          -- apply mem_tid_In in Hm. destruct (Hforked _ Hm) as (k & t0 & Hk & Hnk).
+             exists k, t0. split; auto. rewrite <- app_assoc. rewrite nth_error_app1 by lia. exact Hnk.
+        * apply Hthrs; auto. rewrite app_length. cbn. lia.
+  Qed.
+
+  (* a trace accepted by the checker is well formed and respects the table *)
+  Theorem check_sound : forall tbl tr,
+    check_trace field_of inst tbl tr = true ->
+    wf_locks tr /\ wf_threads tr /\ respects field_of inst tbl tr.
+  Proof.
+    intros tbl tr H. unfold check_trace in H.
+    destruct (check_sound_gen tbl tr [] st0 true [] eq_refl) as (Hwf & Hres & Hthr); auto.
+    - intros _ e [].
+    - intros t [].
+    - cbn [app] in *. split; [exact Hwf|]. split.
+      + intros j e Hn Hne. apply (Hthr j e); auto. cbn. lia.
+      + intros i e x Hn Ha. apply (Hres i e x); auto. cbn. lia.
   Qed.
 End Soundness.
 
